@@ -4714,9 +4714,11 @@ def jobs_merge_union(tier):
 
 @guard
 def h_record_setitem(names, where, length, wlen_delta):
-    """RecordArray::setitem_field(name, what) with a name that is not yet a field: the result has every old field, unchanged and in order, followed
-    by the new field under the new name, and the same number of records; an array of another length is refused"""
+    """RecordArray::setitem_field(name, what): the result has every old field *of another name*, unchanged and in order, followed by the new field
+    under the given name - a name that was a field already is replaced, not doubled (reading it gives the new value; what ak.with_field does) -
+    and the same number of records; an array of another length is refused"""
     names = tuple(names)
+    kept = [j for j, nm_ in enumerate(names) if nm_ != where]
     nc = NodeCtx(['REC', 'IA', 'IDX', 'CNT', 'UTL', 'KD', 'IDS'], [], unwind=max(16, 4 * len(names) + 12))
     nc.m.eng.stubs.update(string_stubs(nc))
     this, vals, lens = build_named_record(nc, names, length)
@@ -4736,15 +4738,15 @@ def h_record_setitem(names, where, length, wlen_delta):
     obls = [('raises exactly when the new field has another length than the record array', z3.simplify(out.raised) != z3.BoolVal(wlen_delta != 0))]
     if wlen_delta == 0:
         res = decode(nc, out.mem, nc.m.cell('ret', 0))
-        if res['cls'] != 'record' or len(res['contents']) != len(names) + 1:
-            obls.append(('the result is a record array with one more field', z3.BoolVal(True)))
+        if res['cls'] != 'record' or len(res['contents']) != len(kept) + 1:
+            obls.append(('the result is a record array with the other old fields and the new one (%d fields, not %s)' % (len(kept) + 1, len(res.get('contents', [])) if res['cls'] == 'record' else res['cls']), z3.BoolVal(True)))
         else:
             obls.append(('the number of records is unchanged', res['length'] != length))
             got_names = _lookup_names(out.mem, res['recordlookup'])
-            obls.append(('the field names are the old ones followed by the new one (%s)' % got_names, z3.BoolVal(got_names != list(names) + [where])))
-            for j in range(len(names) + 1):
+            obls.append(('the field names are the other old ones followed by the new one (%s)' % got_names, z3.BoolVal(got_names != [names[j] for j in kept] + [where])))
+            for pos_, j in enumerate(kept + [99]):
                 for i in range(length):
-                    obls += compare(nodeh.at(res['contents'][j], i), Elem(BV(i + (j if j < len(names) else 99) * BASE)), 'record %d field %d' % (i, j))
+                    obls += compare(nodeh.at(res['contents'][pos_], i), Elem(BV(i + j * BASE)), 'record %d field %d' % (i, pos_))
     def replay(model, ent):
         if wlen_delta != 0 or not names:
             return False, 'only the accepted case of a record with named fields is replayed', {}
@@ -4755,16 +4757,22 @@ def h_record_setitem(names, where, length, wlen_delta):
         payload = dict(program=prog + 'drop numkeys', native=[kind, got], expected=len(names))
         if kind != 'OK' or got != len(names):
             return True, 'records with fields %s: after setitem_field("%s") the original array lists %s keys instead of %d (native library %s)' % (list(names), where, got, len(names), kind), payload
-        exp = [dict([(nm, 100 * j + i) for j, nm in enumerate(names)] + [(where, 900 + i)]) for i in range(length)]
+        kind, got = fullnative.akrun(prog + 'numkeys')
+        if kind != 'OK' or got != len(kept) + 1:
+            return True, 'records with fields %s: after setitem_field("%s") the result lists %s keys instead of %d (native library %s)' % (list(names), where, got, len(kept) + 1, kind), dict(program=prog + 'numkeys', native=[kind, got], expected=len(kept) + 1)
+        kind, got = fullnative.akrun(prog + 'getfield %s' % where)
+        if kind != 'OK' or got != list(range(900, 900 + length)):
+            return True, 'records with fields %s: after setitem_field("%s") reading that field gives %s %s instead of the new values' % (list(names), where, kind, str(got)[:100]), dict(program=prog + 'getfield %s' % where, native=[kind, got])
+        exp = [dict([(nm, 100 * j + i) for j, nm in enumerate(names) if nm != where] + [(where, 900 + i)]) for i in range(length)]
         return akrun_check(prog, exp, 'setitem_field("%s") on records with fields %s' % (where, list(names)))
     return mdischarge(nc.m, 'RecordArray%s::setitem_field("%s") new field of length %+d' % (list(names), where, wlen_delta), obls, [], replay=replay,
                       extra=dict(bounds='field names concrete (case split), %d records' % length))
 
 
 def jobs_record_setitem(tier):
-    q = [(('a', 'b'), 'c', 2, 0), (('a',), 'z', 1, 1), ((), 'x', 2, 0)]
+    q = [(('a', 'b'), 'c', 2, 0), (('a',), 'z', 1, 1), ((), 'x', 2, 0), (('x', 'y'), 'x', 2, 0), (('a', 'b', 'c'), 'b', 1, 0)]
     if tier != 'quick':
-        q += [(('a', 'b', 'c'), 'd', 0, 0), (('x', 'y'), 'w', 3, -1)]
+        q += [(('a', 'b', 'c'), 'd', 0, 0), (('x', 'y'), 'w', 3, -1), (('k',), 'k', 2, 0), (('x', 'y'), 'y', 2, 1)]
     return [(h_record_setitem, a, 900) for a in q]
 
 
